@@ -37,6 +37,8 @@ namespace sim::heap {
    void reset(uint64_t, int) { }
    void set_owner(int) { }
    int owner() { return 0; }
+   void set_policy(int) { }
+   int policy() { return 0; }
    void begin_op(uint32_t) { }
    void arm_fault(uint32_t) { }
    bool fault_fired() { return false; }
@@ -324,6 +326,8 @@ namespace {
 
    void set_owner(int o) { g_cur = (o % max_owners + max_owners) % max_owners; }
    int owner() { return g_cur; }
+   void set_policy(int p) { g_policy = ((p % PolicyCount) + PolicyCount) % PolicyCount; }
+   int policy() { return g_policy; }
    void begin_op(uint32_t i) { g_op = i; g_op_allocs = 0; }
    void arm_fault(uint32_t k) { g_armed = k; if (k != 0) g_fired = false; }
    bool fault_fired() { return g_fired; }
